@@ -53,6 +53,15 @@ def make_cases(run):
     for desc in ("pack:2 [numa(memory=1024)] core:2 pu:2", "pu:4"):
         for order in ("AB", "BA"):
             cases.append(("b:imported-support:%s:%s" % (desc, order), ["flags 8", "src synthsupport " + desc], ["pre info 0 0 a b", "dup", "mut B info 0 0 c d", "destroy " + order[0], "destroy " + order[1]], "boundary"))
+    # level arrays: 15, 16, 17, 18, 32, 33 (and 34) normal levels, reached at load (XML of a chain of nested Groups) ...
+    for g in (13, 14, 15, 16, 30, 31, 32):
+        cases.append(("b:levels%d-at-load" % (g + 2), ["src synthchain %d" % g], ["pre info 0 0 a b", "dup", "mut B info 0 0 c d", "destroy B", "destroy A"], "boundary"))
+    # ... or by Group insertions after load (each one adds a level), before the dup and on both sides after it
+    for g0, extra in ((14, 1), (14, 2), (15, 1), (30, 1), (30, 2), (13, 1)):
+        npu = g0 + extra + 2
+        pre = ["pre gobj 1004 0 %d" % j for j in range(npu - 2, npu - 2 - g0, -1)]
+        post = ["both gobj 1004 0 %d" % j for j in range(npu - 2 - g0, npu - 2 - g0 - extra, -1)]
+        cases.append(("b:levels%d+%d-by-insertion" % (g0 + 2, extra), ["src synthetic pu:%d" % npu], pre + ["dup"] + post + ["dup", "destroy A", "destroy B"], "boundary"))
     for name, cfg, hist in G.empty_boundary_cases():
         cases.append((name, cfg, hist, "empty"))
     for i in range(60 if quick else 2500):
@@ -142,6 +151,9 @@ def crash_key(txt):
     if m:
         fr = re.findall(r"#\d+ \S+ in (hwloc_\w+)", txt)
         return "asan:%s:%s" % (m.group(1).replace(" ", "-"), fr[0] if fr else "?")
+    m = re.search(r": (\w+): Assertion `([^']*)' failed", txt)
+    if m:
+        return "abort:%s:%s" % (m.group(1), re.sub(r"[^A-Za-z0-9_]+", "-", m.group(2))[:50].strip("-"))
     if "LeakSanitizer" in txt:
         fr = re.findall(r"#\d+ \S+ in (hwloc_\w+)", txt)
         return "lsan:%s" % (fr[0] if fr else "?")
@@ -175,6 +187,8 @@ def findings_of(r, meta):
             nboth = sum(1 for x in lines[:lines.index(l)] if x.startswith("both "))
             opname = step[nboth - 1].split(" ")[1] if 0 < nboth <= len(step) else "?"
             out.append(("twin-diverges:" + opname, "the same call on the original and on the copy answers differently / leaves different observations after identical histories (%s): %s" % (step[nboth - 1] if 0 < nboth <= len(step) else "?", l[:500]), False))
+        elif l.startswith("dupdup ") and " same" not in l:
+            out.append(("dup-of-dup-not-equal", "a duplicate of the duplicate does not report what the original reports: " + l[:400], False))
         elif l.startswith("firstq ") and " same" not in l:
             out.append(("first-query-differs:" + l.split(" ")[1], "an accessor used as the FIRST query on a fresh duplicate answers differently from the original: " + l[:500], False))
         elif l.startswith("nogpcmp DIFF") and not any(h.startswith("mut ") for h in r.get("script", [])):
